@@ -22,7 +22,7 @@ CHUNK = 1
 RULE = ("cases = MapSpec pipelines from vlib.mapgen (VERIF_SEED), scalar roots sometimes supplied as function defaults and sometimes "
         "as instances of a class defined in the running script's __main__; each "
         "is run by a forked child into a run folder under every persisting storage configuration (file_array; dict and "
-        "shared_memory_dict with persist_memory=True; two per-output mixes), sequentially or through a process pool; the child "
+        "shared_memory_dict with persist_memory=True; two per-output mixes), sequentially or through a process pool (some through a RELATIVE run folder while the pool's workers live in another directory; some with arrays of more than a thousand elements, several of equal size); all names are also loaded in one load_outputs call and kept; the child "
         "records load_outputs / RunInfo.load / load_xarray_dataset in the running process and exits (all manager processes "
         "gone); then ONE fresh interpreter per batch (python -m vlib.loader04, no fork) loads every folder twice; compared: "
         "every output vs denotation, inputs (value and list/ndarray type), defaults, shapes, masks, MapSpec strings, storage "
@@ -140,12 +140,23 @@ def _run_child(case, cfg, i, folder, out, use_pool):
                         pass
                 kw = {"parallel": False}
                 ex = None
+                run_folder_arg = folder
+                res = {}
                 if use_pool:
                     from concurrent.futures import ProcessPoolExecutor
 
                     ex = ProcessPoolExecutor(2, mp_context=multiprocessing.get_context("fork"))
                     kw = {"executor": ex}
-                res = {}
+                    if i % 8 == 5:
+                        # a RELATIVE run folder, and pool workers that were started while the process lived in another
+                        # directory: the folder is the one relative to where map() is called
+                        warm = folder + ".elsewhere"
+                        os.makedirs(warm, exist_ok=True)
+                        os.chdir(warm)
+                        list(ex.map(int, ["1", "2", "3", "4"]))  # workers exist now, with cwd = warm
+                        os.chdir(os.path.dirname(folder))
+                        run_folder_arg = os.path.basename(folder)
+                        res["relative_run_folder"] = True
                 try:
                     st_arg = storage_arg(case, cfg, i)
                     if isinstance(st_arg, dict):
@@ -160,22 +171,22 @@ def _run_child(case, cfg, i, folder, out, use_pool):
                         singles = [S(f["outs"][0]) for f in case["funcs"] if len(f["outs"]) == 1]
                         if singles:
                             try:
-                                pipeline.map(inputs, run_folder=folder, internal_shapes=ishs, storage=st_arg, parallel=False,
+                                pipeline.map(inputs, run_folder=run_folder_arg, internal_shapes=ishs, storage=st_arg, parallel=False,
                                              output_names={singles[0]})
                                 staged = True
                             except Exception:  # noqa: BLE001  (a refused first stage is not this check's subject)
                                 staged = False
                     try:
-                        r = pipeline.map(inputs, run_folder=folder, internal_shapes=ishs, storage=st_arg, persist_memory=True,
+                        r = pipeline.map(inputs, run_folder=run_folder_arg, internal_shapes=ishs, storage=st_arg, persist_memory=True,
                                          cleanup=not staged, **kw)
                     except Exception:  # noqa: BLE001
                         if not staged:
                             raise
                         staged = False  # continuing was refused: a plain run instead
-                        r = pipeline.map(inputs, run_folder=folder, internal_shapes=ishs, storage=st_arg, persist_memory=True, **kw)
+                        r = pipeline.map(inputs, run_folder=run_folder_arg, internal_shapes=ishs, storage=st_arg, persist_memory=True, **kw)
                     res["staged"] = staged
                     res["results"] = {k: probes.render(x.output) for k, x in r.items()}
-                    res["same_process"] = loader04.describe_folder(folder, [S(o) for f in case["funcs"] for o in f["outs"]])
+                    res["same_process"] = loader04.describe_folder(run_folder_arg, [S(o) for f in case["funcs"] for o in f["outs"]])
                     code = 0
                 except Exception as e:  # noqa: BLE001
                     res["exc"] = f"{type(e).__name__}: {str(e)[:200]}"
@@ -214,6 +225,16 @@ def compare(v, case, cfg, i, env, run, fresh, w):
                       got=got[:400], returned=str(run["results"].get(o))[:400], **w)
             elif exp is not None and got != exp:
                 v.bad(f"load_outputs-differs-from-denotation/{where}", f"load_outputs({o}) {where} differs from denotation", got=got[:400], expected=exp[:400], **w)
+        tg = d.get("outputs_together")
+        if isinstance(tg, dict):
+            v.count("load_outputs_calls_with_all_names")
+            for o in outs:
+                if tg.get(o) != d["outputs"].get(o):
+                    v.bad(f"load_outputs-of-several-names-differs-from-one-by-one/{where}/{cfg if not cfg.startswith('mix') else 'mix'}",
+                          f"load_outputs(*all names) {where}: {o} differs from load_outputs({o})", together=str(tg.get(o))[:300],
+                          alone=str(d["outputs"].get(o))[:300], **w)
+        elif tg is not None and not any(str(x).startswith("EXC ") for x in d["outputs"].values()):
+            v.bad(f"load_outputs-raises/{where}/several-names:{str(tg).split(':')[0]}", f"load_outputs(*all names) {where}: {tg}", **w)
         ri = d["run_info"]
         if not isinstance(ri, dict):
             v.bad(f"RunInfo.load-raises/{where}:{str(ri).split(':')[0]}", f"RunInfo.load {where}: {ri}", **w)
@@ -264,6 +285,18 @@ def compare(v, case, cfg, i, env, run, fresh, w):
                 v.bad("xarray:values-differ-from-denotation", f"dataset variable {o} differs from the denotation", got=xf["vars"][o][1][:300], **w)
 
 
+def _large(i):
+    return i % 12 == 10
+
+
+def _case(seed, i):
+    if _large(i):
+        # arrays of more than a thousand elements, several of them of the same size in one folder
+        sizes = ({"i": 1100, "j": 1, "k": 1, "l": 1} if i % 24 == 10 else {"i": 37, "j": 31, "k": 1, "l": 1})
+        return mapgen.case_from_seed(seed, i, sizes=sizes, max_funcs=3, allow_internal=False)
+    return mapgen.case_from_seed(seed, i, allow_picker=(i % 3 == 2))
+
+
 def run_case(desc):
     v = V()
     keys = []
@@ -271,7 +304,7 @@ def run_case(desc):
     with tmpdir("c04-") as scratch:
         jobs, meta = [], {}
         for i in range(desc["start"], desc["start"] + desc["n"]):
-            case = mapgen.case_from_seed(desc["seed"], i, allow_picker=(i % 3 == 2))
+            case = _case(desc["seed"], i)
             npl = _none_plan(case, i)
             env, _ = mapgen.oracle(case, none_terms=({npl[1]} if npl else ()))
             if npl:
@@ -293,10 +326,20 @@ def run_case(desc):
                 v.count(f"folders:{cfg}")
                 if run.get("staged"):
                     v.count("folders_built_in_stages")
+                if _large(i):
+                    v.count("folders_with_arrays_over_1000_elements")
+                if run.get("relative_run_folder"):
+                    v.count("folders_given_as_relative_path")
                 if _wraps(i) and any(r["kind"] == "scalar" for r in case["roots"].values()):
                     v.count("folders_with_main_class_instances")
                 pre = "sc." if _scoped(i) else ""
-                jobs.append({"id": jid, "folder": folder, "outputs": [pre + o for f in case["funcs"] for o in f["outs"]]})
+                job = {"id": jid, "folder": folder, "outputs": [pre + o for f in case["funcs"] for o in f["outs"]]}
+                if run.get("relative_run_folder"):
+                    # the SAME relative path, resolved from the same directory, in the fresh interpreter (a folder written
+                    # through a relative path records its input paths relative to that directory; whether it can be opened
+                    # through another spelling of the path is more than the property states)
+                    job.update(folder=os.path.basename(folder), cwd=os.path.dirname(folder))
+                jobs.append(job)
                 if _scoped(i):
                     run = _unscope(run)
                     v.count("folders_with_scoped_names")
@@ -334,6 +377,9 @@ def finalize(agg, tier, seed):
             floors.append(f"only {agg.counters.get(f'fresh:{cfg}', 0)} folders reloaded in a fresh process for {cfg}")
     if agg.counters.get("folders_with_scoped_names", 0) < 10 or agg.counters.get("cases_with_a_None_valued_element", 0) < 5:
         floors.append("too few folders with scoped names / cases with a None-valued element")
+    if agg.counters.get("folders_given_as_relative_path", 0) < 5 or agg.counters.get("folders_with_arrays_over_1000_elements", 0) < 5:
+        floors.append(f"too few relative run folders / folders with large arrays ({agg.counters.get('folders_given_as_relative_path', 0)}, "
+                      f"{agg.counters.get('folders_with_arrays_over_1000_elements', 0)})")
     if agg.counters.get("folders_built_in_stages", 0) < 10:
         floors.append(f"only {agg.counters.get('folders_built_in_stages', 0)} folders built up in stages (< 10)")
     if agg.counters.get("skipped_run_refused", 0) * 3 > max(1, agg.counters.get("folders_written", 0)):
